@@ -196,11 +196,11 @@ impl Probe for ResolveProbe {
 
 pub fn scenarios(thorough: bool) -> Vec<Scenario> {
     let mut v = vec![];
-    v.push(pair_conflict_scenario("pair-conflict-edit-vs-delete", 4, 3, if thorough { &[8, 9, 2] } else { &[9] }, if thorough { 4 } else { 3 },
+    v.push(pair_conflict_scenario("pair-conflict-edit-vs-delete", 4, 3, if thorough { &[8, 9, 2] } else { &[9, 2] }, if thorough { 5 } else { 4 },
         &[Op::Resolve(1, 0, 0), Op::Resolve(1, 1, 1), Op::Sync(0, 1)]));
-    v.push(pair_conflict_scenario("pair-conflict", 2, 3, if thorough { &[1, 8, 4] } else { &[1] }, if thorough { 4 } else { 3 },
+    v.push(pair_conflict_scenario("pair-conflict", 2, 3, if thorough { &[1, 8, 4] } else { &[1, 8] }, if thorough { 5 } else { 4 },
         &[Op::Resolve(1, 0, 0), Op::Resolve(1, 0, 1), Op::Sync(0, 1)]));
-    v.push(pair_scenario("pair-arrays", if thorough { &[2, 3, 4, 9] } else { &[3, 4] }, if thorough { 6 } else { 5 }, &[Op::Resolve(0, 0, 1)]));
+    v.push(pair_scenario("pair-arrays", if thorough { &[2, 3, 4, 9] } else { &[2, 3, 4] }, if thorough { 7 } else { 6 }, &[Op::Resolve(0, 0, 1), Op::Resolve(1, 0, 0)]));
     v.push(trio_scenario("trio", if thorough { 7 } else { 6 }));
     v.push(long_chain_scenario("pair-long-chain", if thorough { 3 } else { 2 }, &[]));
     // edit-vs-delete at equal depth where the live revision wins the tie-break (digest ff3a…), and where it loses (6502…)
@@ -217,7 +217,7 @@ pub fn run(thorough: bool) {
         probes: vec![Arc::new(ResolveProbe)],
         pools: vec![1],
         time_budget_s: if thorough { 2400 } else { 40 },
-        max_states: if thorough { 100_000 } else { 4_000 },
+        max_states: if thorough { 100_000 } else { 20_000 },
         stop_on_violation: false,
     });
     rep.set("rule", json!("in EVERY state in which some replica reports conflicts: for EVERY object in conflict (plain objects and array descriptors) and EVERY live leaf (winner, non-winners, deletion leaves): resolve_as; the object leaves the conflict set; plain object: value == value at the chosen revision, or (deletion leaf) the winner is a deletion and the object is absent from the document; choosing the winner leaves the document unchanged; array: same membership, chosen version's relative order kept. Then commit and sync to every replica that holds nothing the resolver lacks: equal views. For replicas holding the same history: every pair of independent choices, commit, cross-sync to a fix-point: equal views. distinct_nontrivial = distinct documents after a resolution"));
